@@ -3,6 +3,8 @@ package client
 import (
 	"fmt"
 	"sync"
+
+	"github.com/plgd-dev/go-coap/v3/pkg/verifhook"
 )
 
 // MutexMap wraps a map of mutexes.  Each key locks separately.
@@ -43,6 +45,7 @@ func (m *MutexMap) Lock(key interface{}) Unlocker {
 	m.ml.Unlock()
 
 	// acquire lock, will block here until e.cnt==1
+	verifhook.GateAcquire(e)
 	e.el.Lock()
 
 	return e
@@ -68,4 +71,5 @@ func (entry *mutexMapEntry) Unlock() {
 	// now that map stuff is handled, we unlock and let
 	// anything else waiting on this key through
 	e.el.Unlock()
+	verifhook.GateRelease(e)
 }
